@@ -505,3 +505,71 @@ func leafGroupPaths(p *core.Prog, r *core.Report) {
 	r.Count("leaf_group_constructions", n)
 	r.Floor("leaf_group_constructions", 16)
 }
+
+// SAME-DATUM-PATH — a sub-validator that judges the *same* datum as its parent (the value the enclosing method
+// received, handed on unchanged) speaks about the same location: it must be built with the parent's own path.
+// A path extended by some key (`s.Path+"."+key` for the schema of a dependency, which validates the whole object)
+// names a member that is not the offender — or does not exist at all: {"dependencies":{"a":{"required":["b"]}}}
+// on {"a":1} reports `a.b` for the missing member `b`.
+func SameDatumPath(p *core.Prog, r *core.Report) {
+	const rule = "SAME-DATUM-PATH"
+	n := 0
+	seq := map[string]int{}
+	for _, f := range p.Funcs {
+		top := core.EnclosingTop(f)
+		if top.Signature.Recv() == nil || len(top.Params) < 2 {
+			continue
+		}
+		recv := top.Params[0]
+		core.EachInstr(f, func(i ssa.Instruction) {
+			c, ok := i.(*ssa.Call)
+			if !ok {
+				return
+			}
+			g := core.StaticCallee(c)
+			if g == nil || core.FuncName(g) != "(*SchemaValidator).Validate" || len(c.Call.Args) < 2 {
+				return
+			}
+			ctor, ok := c.Call.Args[0].(*ssa.Call)
+			if !ok {
+				return
+			}
+			cg := core.StaticCallee(ctor)
+			if cg == nil || core.FuncName(cg) != "newSchemaValidator" {
+				return
+			}
+			// the datum validated is a parameter of the enclosing method, unchanged
+			datum, isParam := through(c.Call.Args[1]).(*ssa.Parameter)
+			if !isParam || datum.Parent() != top {
+				return
+			}
+			if _, isIface := datum.Type().Underlying().(*types.Interface); !isIface {
+				return
+			}
+			pp := decomposePath(ctor.Call.Args[2], recv, 0)
+			keys := uniqVals(pp.keys)
+			if len(keys) == 1 {
+				if kp, isP := leafOf(keys[0]).(*ssa.Parameter); isP && kp.Parent() == top {
+					return // a (key, value) helper: the pairing is K-CONSISTENT's business, at its call sites
+				}
+			}
+			n++
+			base := core.FuncName(top) + ":" + describe(ctor.Call.Args[0])
+			seq[base]++
+			key := base
+			if seq[base] > 1 {
+				key = fmt.Sprintf("%s#%d", base, seq[base])
+			}
+			switch {
+			case pp.hasPath && len(keys) == 0:
+				r.OK(rule, key, p.Pos(ctor.Pos()), "validates the method's own datum under the receiver's own path")
+			case !pp.hasPath:
+				r.Unk(rule, key, p.Pos(ctor.Pos()), "the path handed to the sub-validator of the same datum is not derived from the receiver's path")
+			default:
+				r.Bad(rule, key, p.Pos(ctor.Pos()), "the sub-validator judges the very datum the method received but is built with the path extended by "+describe(keys[0])+": its errors name a member below that key instead of the offending one (schema dependency {a: {required:[b], properties:{c:{type:integer}}}} on {a:1, c:\"x\"} reports a.b and a.c, the offenders are b and c)")
+			}
+		})
+	}
+	r.Count("same_datum_subvalidators", n)
+	r.Floor("same_datum_subvalidators", 1)
+}
